@@ -292,7 +292,7 @@ def mat_intersect(D1, D2, keep=0):
         (r1, c1) = np.shape(D1)
         (r2, c2) = np.shape(D2)
 
-    if c1 != c2:
+    if c1 != c2 or r1 == 0 or r2 == 0:
         return np.array([], dtype=int), np.array([], dtype=int)
 
     # loop over the smaller one if keep == 0:
